@@ -231,7 +231,7 @@ CLAIMS = {
         "nothing (rerun_idempotent: row vectors literally unchanged) and a re-run after pushing facts into any relations equals the least model of the union "
         "of all inputs (monotone_rerun, via lfp(lfp I ∪ J) = lfp(I ∪ J)). For EVERY stratified program with aggregation / negation: the stratified restart theorem "
         "(restart_agg: a completed run from any value between the inputs and the stratified model ends in the stratified model) and its corollary rerun_idempotent_agg "
-        "(Props/C13Agg.lean; aggregators insensitive to input order, proved for the library ones: std_aggPermInvariant). Tied by driving compiled programs through generated histories of run/push/dump. Physical level (Props/C13Phys.lean): rerun_idempotent_phys, monotone_rerun_phys over the generated code's hash indices (Model/EnginePhys.lean). Props/C13PhysAgg.lean: over the physical indices also for stratified programs with aggregation / negation (restart_phys_agg, rerun_idempotent_phys_agg). Props/C13PhysLat.lean: the physical engine with lattices from any legal value (runPhysLat_from) and idempotence of run() (rerun_idempotent_physLat).",
+        "(Props/C13Agg.lean; aggregators insensitive to input order, proved for the library ones: std_aggPermInvariant). Tied by driving compiled programs through generated histories of run/push/dump. Physical level (Props/C13Phys.lean): rerun_idempotent_phys, monotone_rerun_phys over the generated code's hash indices (Model/EnginePhys.lean). Props/C13PhysAgg.lean: over the physical indices also for stratified programs with aggregation / negation (restart_phys_agg, rerun_idempotent_phys_agg). Props/C13PhysLat.lean: the physical engine with lattices from any legal value (runPhysLat_from) and idempotence of run() (rerun_idempotent_physLat). Props/C13PhysPar.lean: the same for ascent_par! over its concurrent indices, the two runs in ANY two pools under ANY two schedules (rerun_idempotent_physPar, monotone_rerun_physPar, history_pool_irrelevant_physPar); tie `eng runpp` on parallel histories; BYODS relations (trrel, eqrel, trrel_uf) in run; run; push; run histories against the explicit-closure twin.",
    design_ref="DESIGN.md §8 C13", note=ENGINE_NOTE + " Parallel re-runs are tied (compiled histories), not proved; F2 and F4 are fixed."),
  "C14": dict(
    engine="tie-B-engine",
